@@ -63,6 +63,12 @@ def families():
     fam.append(("req-multipart-parts", mp))
     fam.append(("pipelined-exchanges", lambda k: ((G + b"\r\n") * k, (OK + b"Content-Length: 1\r\n\r\nx") * k)))
     fam.append(("res-body-bytes", lambda k: (G + b"\r\n", OK + b"Content-Length: %d\r\n\r\n" % (k * 10) + b"0123456789" * k)))
+    # folded response header lines behind a long first line, by protocol (the mis-folding test scans the pending header for a colon;
+    # S42, repaired: it did so before looking at the protocol, k lines x k bytes for anything but HTTP/1.1)
+    for ver in (b"1.0", b"1.1"):
+        fam.append(("res-folded-colon-lines-" + ver.decode(), lambda k, ver=ver: (G + b"\r\n", b"HTTP/" + ver + b" 200 OK\r\n" + b"X" * k + b":\r\n" + b" :\r\n" * k +
+                                                                               b"Content-Length: 0\r\n\r\n")))
+    fam.append(("res-te-nul-run", lambda k: (G + b"\r\n", OK + b"Transfer-Encoding: x" + b"\x00" * k + b"y\r\n\r\n")))
     # Content-Encoding token lists (the token loop of htp_tx_state_response_headers runs only with response decompression on): separator
     # runs and token runs, with the default layer limit and with "0 = no limit"
     ZD = "respdecomp=1,urlenc=1,mpart=1,cookies=1"
